@@ -152,10 +152,10 @@ UNIT = dict(
     dict(gp(ctor=True), id='g_ctor', file=I, sig=QG + r'guard_ptr\(const MarkedPtr& p\) noexcept',
          c_sig='static void qsbr_g_ctor(struct guard* self, mptr p)', must_fire={'ctor_init': 1, 'method:enter_region': 1}),
     dict(gp(ctor=True), id='g_copy_ctor', file=I, sig=QG + r'guard_ptr\(const guard_ptr& p\) noexcept',
-         c_sig='static void qsbr_g_copy_ctor(struct guard* self, struct guard* p_ref)', subst=[P_REF],
+         c_sig='static void qsbr_g_copy_ctor(struct guard* self, struct guard* p_ref)', post_subst=[P_REF],
          must_fire={'ctor_init': 1}),
     dict(gp(ctor=True), id='g_move_ctor', file=I, sig=QG + r'guard_ptr\(guard_ptr&& p\) noexcept',
-         c_sig='static void qsbr_g_move_ctor(struct guard* self, struct guard* p_ref)', subst=[P_REF],
+         c_sig='static void qsbr_g_move_ctor(struct guard* self, struct guard* p_ref)', post_subst=[P_REF],
          must_fire={'ctor_init': 1, 'method:reset': 1}),
     dict(gp(), id='g_copy_assign', file=I, sig=QG + r'operator=\(const guard_ptr& p\) noexcept',
          c_sig='static void qsbr_g_copy_assign(struct guard* self, struct guard* p_ref)', subst=[P_REF, RET_THIS],
@@ -181,7 +181,35 @@ UNIT = dict(
          subst=[(r'\bg\b', '(*g_ref)', 'g_ref')],
          must_fire={'subst:crtp_self': 1, 'subst:std_swap': 1, 'self_call:do_swap': 1}),
   ],
-  runs=[],
+  runs=[
+    dict(id='epochs', entry='h_epochs', cls='unbounded'),
+    dict(id='enter', entry='h_enter', cls='unbounded'),
+    dict(id='leave', entry='h_leave', cls='unbounded'),
+    dict(id='region_guard', entry='h_region_guard', cls='unbounded'),
+    dict(id='g_ctor', entry='h_g_ctor', cls='unbounded'),
+    dict(id='g_copy_ctor', entry='h_g_copy_ctor', cls='unbounded'),
+    dict(id='g_move_ctor', entry='h_g_move_ctor', cls='unbounded'),
+    dict(id='g_copy_assign', entry='h_g_copy_assign', cls='unbounded'),
+    dict(id='g_move_assign', entry='h_g_move_assign', cls='unbounded'),
+    dict(id='g_swap', entry='h_g_swap', cls='unbounded'),
+    dict(id='g_reset', entry='h_g_reset', cls='unbounded'),
+    dict(id='g_reclaim', entry='h_g_reclaim', cls='shape-complete', note='retire lists: any distribution of NP=6 nodes'),
+    dict(id='g_acquire', entry='h_g_acquire', cls='unbounded'),
+    dict(id='g_acquire_int', entry='h_g_acquire', mode='INT', cls='unbounded'),
+    dict(id='g_aie', entry='h_g_acquire_if_equal', cls='unbounded'),
+    dict(id='g_aie_int', entry='h_g_acquire_if_equal', mode='INT', cls='unbounded'),
+    dict(id='retire', entry='h_retire', cls='shape-complete', note='NP=6 nodes in any distribution over the lists'),
+    dict(id='adopt', entry='h_adopt', cls='shape-complete', unwindset=['qsbr_adopt_orphans.0:%d' % (3 + 1)], defs={'L': 3},
+         note='abandoned chain of up to L=3 orphans, NP=6 nodes in total'),
+    dict(id='try_update', entry='h_try_update', cls='shape-complete', unwindset=['qsbr_try_update_epoch.0:4'], note='registry of up to E=3 entries'),
+    dict(id='try_update_int', entry='h_try_update_int', mode='INT', cls='shape-complete', unwindset=['qsbr_try_update_epoch.0:4']),
+    dict(id='quiescent', entry='h_quiescent', cls='shape-complete', unwindset=['qsbr_try_update_epoch.0:4']),
+    dict(id='quiescent_int', entry='h_quiescent_int', mode='INT', cls='shape-complete', unwindset=['qsbr_try_update_epoch.0:4']),
+    dict(id='ensure', entry='h_ensure', cls='shape-complete', defs={'REAL_EHCB': 1}, note='validate loop cut by invariant EHCB; registry of up to E=3 entries'),
+    dict(id='ensure_int', entry='h_ensure', mode='INT', cls='shape-complete', defs={'REAL_EHCB': 1}),
+    dict(id='dtor', entry='h_dtor', cls='shape-complete'),
+  ],
+  loop_obligation={'EHCB': 'qsbr.adopt.reinit'},
   obligations={},
   canaries=[],
 )
